@@ -49,9 +49,9 @@ def one_case(fmt, name, iso, tmp):
         try:
             back, doc = _export_import(fmt, iso, tmp, via_file)
         except pgError as exc:
-            if fmt == 'json':
-                problems.append(f"{'file' if via_file else 'string'}: refused with {type(exc).__name__}: {exc}"[:160])
-            # other formats may refuse values they cannot carry -- with a pyGAPS error (allowed by the property)
+            # the generators draw every value from the format's value domain (the property's quantifier): a refusal of one of
+            # them -- at export, or of the format's own document at import -- is a value that did not come back
+            problems.append(f"{'file' if via_file else 'string'}: refused with {type(exc).__name__}: {exc}"[:160])
             continue
         except Exception as exc:
             problems.append(f"{'file' if via_file else 'string'}: {type(exc).__name__}: {exc}"[:200])
